@@ -198,17 +198,20 @@ def build_and_run(repo, cfgname='default', out_dir=None, rlimit=None, seed=None,
         # graceful degradation: a construct Verus' front end rejects inside function F makes F external_body for
         # this run (its obligations are reported as missing -> UNDECIDED for the properties that need them, never
         # an alarm), so that the rest of the crate can still be decided.
-        fe = [e for e in summ['errors'] if e['kind'] == 'frontend' and e.get('fn') and e.get('origin') and e['origin'][0] == 'src']
+        # (errors inside proof text spliced into a function body - origin 'gen: contract <key>' - also mean that the proof no
+        # longer fits the function's changed text: degrade that function, not the whole crate)
+        fe = [e for e in summ['errors'] if e['kind'] == 'frontend' and e.get('fn') and e.get('origin')
+              and (e['origin'][0] == 'src' or (e['origin'][0] == 'gen' and str(e['origin'][1]).startswith('contract ')))]
         new = []
         for e in fe:
             k = e['fn']
             if k not in [d[0] for d in degraded] and k not in [n[0] for n in new]:
                 new.append((k, e['msg'][:160]))
-        if summ.get('verified') is None and new:
+        if new and not summ.get('verified'):
             degraded += new
             continue
         break
-    summ['degraded'] = degraded
+    summ['degraded'] = degraded + [(k, 'proof anchor lost: ' + w) for k, w in report.get('body_lost', [])]
     summ['counts'] = counts
     summ['report'] = report
     summ['wall'] = res['wall']
